@@ -288,9 +288,9 @@ let () =
       sid := id; sclass := cl; cmds_txt := []; cmds := []; mst := []; seq_bad := false; seq_pf := false; seq_nontrivial := false; seq_disc := true;
       prev_dump := "-/ -/ -/ -/"; prev_resp := ""; prev_cmd := "";
       bump ("class:" ^ cl)
-    | ["HS"; id] ->
+    | ["HS"; id; cls] ->
       finish_seq ();
-      sid := id; sclass := "rpc"; cmds_txt := []; seq_bad := false; seq_pf := false; in_rpc := true
+      sid := id; sclass := cls; cmds_txt := []; seq_bad := false; seq_pf := false; in_rpc := true
     | ["H"; ctxt; want; got; verdict] ->
       let probe = (want = "region-error-probe") in
       if not probe then cmds_txt := ctxt :: !cmds_txt;
